@@ -34,7 +34,7 @@ func (c10) Floors(tier string, c map[string]int64) []string {
 			}
 		}
 	}
-	for _, k := range []string{"trees", "leaf/in", "leaf/has", "nil_pairs", "impl/wrapped", "impl/soft", "answers/true", "answers/false"} {
+	for _, k := range []string{"trees", "leaf/in", "leaf/has", "nil_pairs", "impl/wrapped", "impl/soft", "answers/true", "answers/false", "self_compares", "reused_filters"} {
 		if c[k] == 0 {
 			out = append(out, "never observed: "+k)
 		}
@@ -128,6 +128,106 @@ func (m c10) pair(c *Ctx, k int, null bool, a, b Val, ress []jsonapi.Resource, s
 	}
 }
 
+// selfCompare evaluates every operator with the filter value being the very value the resource returns
+// (same pointer / same slice), as a filter built from res.Get(...) would.
+func (m c10) selfCompare(c *Ctx, k int, null bool, a Val, ress []jsonapi.Resource, specs []*TypeSpec) {
+	for i, res := range ress {
+		var own any
+		if pi := Guard(func() { own = res.Get("v") }); pi != nil {
+			return
+		}
+		if own == nil {
+			continue // an untyped nil is not a well-typed filter value
+		}
+		for _, op := range c10ops {
+			want := false
+			switch {
+			case a.IsNil():
+				want = op == "="
+			case op == "=" || ((op == "<=" || op == ">=") && orderedKind(k)):
+				want = true
+			}
+			var got bool
+			f := &jsonapi.Filter{Field: "v", Op: op, Val: own}
+			if pi := Guard(func() { got = f.IsAllowed(res) }); pi != nil {
+				c.Violate("panic@"+pi.Frame+"/"+panicClass(pi.Val)+"/self-compare", "%s %s itself: %s", kindName(k, null), op, pi)
+				return
+			}
+			c.Count("self_compares")
+			if got != want {
+				c.Violate("semantics/self-compare/"+kindNames[k]+"/"+op+"/"+implName(specs[i]), "resource value %s %s the same value (same pointer): IsAllowed=%v, want %v", a, op, got, want)
+			}
+		}
+	}
+}
+
+// reuse evaluates a built filter, then changes the values of its leaves in place and evaluates the same
+// Filter object again: the verdict must follow the filter's current content.
+func (m c10) reuse(c *Ctx, r *RNG, base *TypeSpec, res *ResSpec, tree *FSpec) {
+	built := tree.build()
+	var target jsonapi.Resource
+	if pi := Guard(func() { target = buildResource(base, res); _ = built.IsAllowed(target) }); pi != nil {
+		return
+	}
+	// mutate leaves of spec and built filter in parallel
+	var walk func(fs *FSpec, bf *jsonapi.Filter)
+	changed := 0
+	walk = func(fs *FSpec, bf *jsonapi.Filter) {
+		if fs.Op == "and" || fs.Op == "or" {
+			kids, _ := bf.Val.([]*jsonapi.Filter)
+			for i := range fs.Kids {
+				if i < len(kids) {
+					walk(&fs.Kids[i], kids[i])
+				}
+			}
+			return
+		}
+		nl := genLeaf(r, base, res)
+		if nl.Field != fs.Field || (nl.Val == nil) != (fs.Val == nil) || nl.IsList != fs.IsList || (nl.Str == nil) != (fs.Str == nil) || nl.Op != fs.Op {
+			// keep the shape: only replace the value when the new leaf has the same shape
+			if fs.IsList {
+				fs.Strs = append(genToMany(r, 3), "extra-"+fmt.Sprint(changed))
+				if fs.Op == "in" && r.Bool() {
+					fs.Strs = append(fs.Strs, res.ToOne[fs.Field])
+				}
+				bf.Val = append([]string{}, fs.Strs...)
+				changed++
+			}
+			return
+		}
+		*fs = nl
+		nb := nl.build()
+		bf.Val = nb.Val
+		changed++
+	}
+	spec2 := *tree
+	spec2.Kids = cloneKids(tree.Kids)
+	walk(&spec2, built)
+	if changed == 0 {
+		return
+	}
+	want := evalFilter(&spec2, base, res)
+	var got bool
+	if pi := Guard(func() { got = built.IsAllowed(target) }); pi != nil {
+		c.Violate("panic@"+pi.Frame+"/"+panicClass(pi.Val)+"/reuse", "%s", pi)
+		return
+	}
+	c.Count("reused_filters")
+	if got != want {
+		c.Violate("semantics/reused-filter", "a Filter evaluated once and then given new leaf values answers %v, its current content read as logic gives %v; now %s on %s", got, want, clip(spec2.String(), 1200), jsonStr(res))
+	}
+}
+
+func cloneKids(in []FSpec) []FSpec {
+	out := make([]FSpec, len(in))
+	for i := range in {
+		out[i] = in[i]
+		out[i].Kids = cloneKids(in[i].Kids)
+		out[i].Strs = append([]string{}, in[i].Strs...)
+	}
+	return out
+}
+
 // antisymmetry: (a < b) on resource a / filter b must equal (b > a) on resource b / filter a.
 func (m c10) antisym(c *Ctx, k int, null bool, a, b Val, t *TypeSpec) {
 	if a.IsNil() || b.IsNil() || !orderedKind(k) {
@@ -194,6 +294,7 @@ func (m c10) Case(c *Ctx, r *RNG) {
 	}
 	m.pair(c, k, null, a, b, ress, specs, rs)
 	m.antisym(c, k, null, a, b, specs[0])
+	m.selfCompare(c, k, null, a, ress, specs)
 
 	// relationship leaves and trees over a richer type
 	s := genSchema(r, genOpts{MaxTypes: 1, MaxAttrs: 5, MaxRels: 3, AllowWrap: false})
@@ -242,6 +343,7 @@ func (m c10) Case(c *Ctx, r *RNG) {
 		c.Violate("impl-disagree/tree", "soft=%v wrapped=%v for %s", got[0], got[1], clip(tree.String(), 1000))
 	}
 	c.Count("trees")
+	m.reuse(c, r, &base, res, &tree)
 	if tree.Op != "and" && tree.Op != "or" {
 		c.Count("leaf/" + tree.Op)
 	}
@@ -275,6 +377,7 @@ func (m c10) Directed(c *Ctx) {
 					}
 					m.pair(c, k, null, a, b, ress, specs, rs)
 				}
+				m.selfCompare(c, k, null, a, ress, specs)
 			}
 		}
 	}
